@@ -810,9 +810,25 @@ package engine
 //@   loop 0
 //@     invariant [C03] sitesReplaced == old(sitesReplaced) + #k
 
+// An import on a '+' line (C11): exactly that path is added, unnamed when the patch writes it unnamed or
+// when its name is a metavariable that matched an unnamed import, otherwise under the name the name
+// replacer produces (the captured name for a metavariable, the literal name otherwise).
+//@ func (r ImportReplacer) Replace(d, cl, f) (pkgName, err)
+//@   requires d != nil && f != nil
+//@   at call engine.Replacer.Replace assert [C11] the-name-is-generated-from-the-same-bindings: arg0 == r.Name && arg1 == d
+//@   at call golang.org/x/tools/go/ast/astutil.AddNamedImport assert [C11] the-import-added-is-the-one-on-the-plus-line: arg1 == f && arg3 == r.Path
+//@   at call golang.org/x/tools/go/ast/astutil.AddNamedImport assert [C11] unnamed-stays-unnamed: r.Name == nil ==> arg2 == ""
+//@   at call golang.org/x/tools/go/ast/astutil.AddNamedImport assert [C11] a-metavariable-that-matched-an-unnamed-import-adds-an-unnamed-import: r.Name != nil && r.NameIsMetavar && impMetaUnnamed(dmap(d), r.NameS) ==> arg2 == ""
+//@   at call golang.org/x/tools/go/ast/astutil.AddNamedImport assert [C11] otherwise-under-the-generated-name: r.Name != nil && !(r.NameIsMetavar && impMetaUnnamed(dmap(d), r.NameS)) ==> arg2 == as("*go/ast.Ident", rvIface(ret("engine.Replacer.Replace", 0)).val).Name
+//@   assigns group(ast), restructured
+
+// Every '+' import is added, in order, each from the same bindings; a failing one fails the whole change.
 //@ func (r ImportsReplacer) Replace(d, cl, f) (names, err)
 //@   requires d != nil && f != nil
+//@   at call (engine.ImportReplacer).Replace assert [C11] every-plus-import-in-order-from-the-same-bindings: arg0 == imp && arg1 == d && arg3 == f
 //@   assigns group(ast), restructured
+//@   loop 0
+//@     invariant names.arr == 0 || fresh(names.arr)
 
 //@ func (c Changelog) Changed(start, end)
 //@   trusted records an interval in a go-intervals set (dependency state, not modelled)
